@@ -55,6 +55,15 @@ CHECKS = {
  "C18": ("TLA+ Mirror relation and score bounds: TLC validation of recorded (position, score, mirror, score) and mate-score-by-depth records",
          "colour symmetry of the static score on a covering family (every piece kind x square x colour x game phase), material extremes and game positions; |score| below every mate score; mate scores strictly improving with remaining depth 0..255; stalemate = 0; overflow checks on.",
          "5 C18", "the numeric piece-square tables are not transcribed; symmetry is a metamorphic relation supplied by the spec"),
+ "C07": ("TLA+ Search outcome rules: Search events validated by Trace_Engine (legal move / declared errors / board untouched) + TLC on MC_Search (termination, all interleavings)",
+         "alpha_beta_search on checkmated, stalemated, single-move, in-check and ordinary roots classified by the rules specification, depths 0..3(4), rayon pools 1/2/4/16, panics and hangs caught; TLC decides each outcome and compares the board projection before/after.",
+         "5 C07", "watchdog of 300 s per search; roots from the oracle neighbourhood of the seed catalogue"),
+ "C08": ("TLA+ state graph of each root (Oracle_Graph) folded into exact minimax vs the real search's (move, score); TLC on MC_Search (ExactValue/ExactTasks, negative control)",
+         "reference = minimax over the TLC-generated legal-move graph with the engine's own leaf evaluation; compared with last_score and the returned move for brand-new contexts and for one context reused across successive searches of a game; the abstract search model is exact for the full cache key under every interleaving and inexact for the (hash, alpha, beta) key.",
+         "5 C08", "fold done by the driver; roots are sparse (<= 7 men) so that depth-3/4 graphs stay small"),
+ "C09": ("TLA+ Search cache actions: schedule-controlled execution of the real search (hook H2 token scheduler), answers compared across schedules, linearised traces validated by Trace_Search; TLC on MC_Search for all interleavings of the abstract model",
+         "the schedule is made an input: every root-move task yields before each shared-cache read/write and a token is granted by seeded random / sticky / ordered / PCT-like / round-robin strategies plus native pools of 1-16 threads; the alarm is a differing (move, score), a panic or a hang; recorded traces are replayed against the cache actions of the specification.",
+         "5 C09", "interleavings controlled at hook points only; exhaustive only at design level (MC_Search)"),
 }
 
 
